@@ -547,9 +547,9 @@ def run(ctx):
                "vm.get_cm_type(idx) resolves the type descriptor of type_ids[idx] (C05)")
     ctx.note("equality with generated code items is not decided; the reported order *between* try items is not constrained by the property")
     # positive controls (every run; stand in for fixtures since today's tree yields no finding)
-    canary(ctx, "report units", de, lambda s: check_report(s, repo, folder, de, quick=True), ["drop*2"])
-    canary(ctx, "catch-all guard", ech.lookup("__init__"), lambda s: check_catch_handler(s, repo, folder, ech), ["negate-if"])
-    canary(ctx, "padding guard", dc.lookup("__init__"), lambda s: check_code_item(s, repo, folder, dc), ["and->or"])
+    canary(ctx, "report units", de, lambda s: check_report(s, repo, folder, de, quick=True), ["drop*2", "add->sub", "const+1"])
+    canary(ctx, "catch-all guard", ech.lookup("__init__"), lambda s: check_catch_handler(s, repo, folder, ech), ["negate-if", "const+1"])
+    canary(ctx, "padding guard", dc.lookup("__init__"), lambda s: check_code_item(s, repo, folder, dc), ["and->or", "negate-if", "const+1"])
     ctx.floor("positive_controls", 3)
     if ctx.tier == "thorough":
         _mutation_adequacy(ctx, repo, folder, de, ech, dc)
